@@ -70,6 +70,7 @@ CONTRACTS = {
     "ntcore.NetworkTableInstance.getDefault": {"kind": "external", "params": {}, "returns": "Ref:NTInst", "ensures": {"an instance": "result is not None"}, "note": "ntcore"},
     "NTInst.getTopic": {"kind": "external", "params": {"key": "Str"}, "returns": "Ref:Topic", "ensures": {"topic of that key": "result is not None and result.key == key"}, "note": "ntcore: getTopic(key)"},
     "NTInst.getTable": {"kind": "external", "params": {"path": "Str"}, "returns": "Ref:NTTable", "ensures": {"table": "result is not None and result.path == path"}, "note": "ntcore: getTable(path)"},
+    "NTTable.getSubTable": {"kind": "external", "params": {"key": "Str"}, "returns": "Ref:NTTable", "ensures": {"sub-table <table>/<key>": "result is not None and result.path == self.path + '/' + key"}, "note": "ntcore"},
     "NTTable.getEntry": {"kind": "external", "params": {"key": "Str"}, "returns": "Ref:NTEntry", "ensures": {"entry under <table>/<key>": "result is not None and result.key == self.path + '/' + key"}, "note": "ntcore"},
     "NTTable.getTopic": {"kind": "external", "params": {"key": "Str"}, "returns": "Ref:Topic", "ensures": {"topic under <table>/<key>": "result is not None and result.key == self.path + '/' + key"}, "note": "ntcore"},
     "TopicType.__call__": {"kind": "external", "params": {"topic": "Ref:Topic"}, "returns": "Ref:TypedTopic",
